@@ -30,6 +30,9 @@ THEOREMS = [
     "Aio.C09.no_stale_pause",
     "Aio.C09.no_stale_pause_current",
     "Aio.C09.stale_pause_scenarios_repaired",
+    "Aio.C09.resumed_reader_raises_recorded_exception",
+    "Aio.C09.resumed_reader_reparks_unrepaired",
+    "Aio.C09.parked_reader_scenario_both_versions",
     "Aio.C09.lost_body_counterexample_peer_close",
     "Aio.C09.lost_body_counterexample_chunked_close",
     "Aio.C09.parked_reader_misses_error_counterexample",
@@ -43,6 +46,9 @@ RULE = ("a case = (side client|server, encoding identity|gzip|deflate|raw-deflat
         "error class, buffered size, the four pause/pending flags, eof, total_bytes, peak size. non-trivial = at least one "
         "body byte reached the reader or an error was reported; distinct by full case content.")
 TRUSTED_BASE = [
+    "behaviour flags waitRechecksException (does a reader resumed from _wait() raise a recorded exception) and "
+    "contentCodingLowercased are probed on the real classes on every run and written to lean/AioModel/Generated/C09.lean; the "
+    "consumer model is parametric in the first (World.waitRechecks), theorems hold for both values",
     "behaviour flag needsInputClearsPause: probed on every run by driving a real HttpPayloadParser + StreamReader through a "
     "feed_data() call that is asked to pause and returns PAYLOAD_NEEDS_INPUT at each of its return sites; written to "
     "lean/AioModel/Generated/C09.lean; the model is parametric in it (World.clearOnNeeds) and the theorems hold for both values "
@@ -155,7 +161,41 @@ def probe_content_coding_lowercased():
     return res
 
 
+def probe_wait_rechecks_exception():
+    """Behavioural probe: a real StreamReader.readany() coroutine is parked in _wait(); feed_data() completes its waiter
+    normally, then set_exception() records an error (no waiter registered any more); the coroutine is resumed.
+    Does it raise the recorded exception (repaired _wait) or return the buffered bytes (code before the repair)?"""
+    from aiohttp.streams import StreamReader
+    from unittest import mock
+    loop = asyncio.new_event_loop()
+    try:
+        proto = mock.Mock()
+        proto.connected = True
+        sr = StreamReader(proto, 2 ** 16, loop=loop)
+        coro = sr.readany()
+        fut = coro.send(None)                    # parked
+        sr.feed_data(b"x")
+        if not fut.done():
+            raise RuntimeError("probe: feed_data did not complete the waiter")
+        marker = RuntimeError("probe-marker")
+        sr.set_exception(marker)
+        try:
+            coro.send(None)
+        except StopIteration as e:
+            if e.value != b"x":
+                raise RuntimeError(f"probe: resumed readany returned {e.value!r}")
+            return False
+        except RuntimeError as e:
+            if e is marker:
+                return True
+            raise
+        raise RuntimeError("probe: resumed readany parked again with data buffered")
+    finally:
+        loop.close()
+
+
 def generate(repo):
+    wr_flag = probe_wait_rechecks_exception()
     cc = probe_content_coding_lowercased()
     cc_flag = all(v == k.split(":")[1].lower() for k, v in cc.items())
     cc_detail = " ".join(f"{k}->{v}" for k, v in cc.items())
@@ -176,6 +216,10 @@ def generate(repo):
         "columns are taken per run from the compression the real parser reported); recorded so that a change is visible and\n"
         f"rebuilds the proofs.  ({cc_detail}) -/\n"
         f"def contentCodingLowercased : Bool := {'true' if cc_flag else 'false'}\n"
+        "/-- probe: a real `StreamReader.readany()` parked in `_wait()`, woken normally by `feed_data`, resumed after\n"
+        "`set_exception` recorded an error, raises that error (`_wait` re-checks `_exception` after the wake-up) instead of\n"
+        "returning the buffered bytes -/\n"
+        f"def waitRechecksException : Bool := {'true' if wr_flag else 'false'}\n"
         "end Aio.Gen.C09\n")
     return {"AioModel/Generated/C09.lean": body}
 
